@@ -378,18 +378,68 @@ def t_uncomp(src):
     return ast.unparse(t) + '\n'
 
 
+PRIV = {}
+
+
+def _collect_private(srcs):
+    """Names of private functions / methods (one leading underscore, no dunder) defined anywhere in the package."""
+    names = set()
+    for src in srcs.values():
+        for n in ast.walk(ast.parse(src)):
+            if isinstance(n, ast.FunctionDef) and n.name.startswith('_') and not n.name.startswith('__'):
+                names.add(n.name)
+    return names
+
+
+class _PrivRename(ast.NodeTransformer):
+    def visit_FunctionDef(self, node):
+        self.generic_visit(node)
+        if node.name in PRIV['names']:
+            node.name = node.name + '_r'
+        return node
+
+    def visit_Attribute(self, node):
+        self.generic_visit(node)
+        if node.attr in PRIV['names']:
+            node.attr = node.attr + '_r'
+        return node
+
+    def visit_Name(self, node):
+        if node.id in PRIV['names']:
+            node.id = node.id + '_r'
+        return node
+
+    def visit_alias(self, node):
+        if node.name in PRIV['names']:
+            node.name = node.name + '_r'
+        return node
+
+    def visit_Constant(self, node):
+        # getattr(self, '_name') / hasattr strings
+        if isinstance(node.value, str) and node.value in PRIV['names']:
+            return ast.copy_location(ast.Constant(value=node.value + '_r'), node)
+        return node
+
+
+def t_privrename(src):
+    t = _PrivRename().visit(ast.parse(src))
+    ast.fix_missing_locations(t)
+    return ast.unparse(t) + '\n'
+
+
 def main():
     import json
     props = [c['property_id'] for c in json.load(open(os.path.join(HERE, 'MANIFEST.json')))['checks']]
     known = {(e['property'], e['rule'], e['construct']) for e in load_known() if e.get('status') == 'finding'}
     src = sources()
+    PRIV['names'] = _collect_private(src)
     bad = 0
     only = [a for a in sys.argv[1:] if not (a.startswith('C') and a[1:].isdigit())]
     ponly = [a for a in sys.argv[1:] if a.startswith('C') and a[1:].isdigit()]
     if ponly:
         props = ponly
-    for name, fn in (('reformat', t_reformat), ('shift', t_shift), ('logging', t_logging), ('swapif', t_swapif), ('retvar', t_retvar), ('rename', t_rename), ('guard', t_guard), ('elif', t_elif), ('ifexp', t_ifexp), ('flip', t_flip), ('reorder', t_reorder), ('inline', t_inline), ('comp', t_comp), ('uncomp', t_uncomp)):
-        if only and name not in only:
+    for name, fn in (('reformat', t_reformat), ('shift', t_shift), ('logging', t_logging), ('swapif', t_swapif), ('retvar', t_retvar), ('rename', t_rename), ('guard', t_guard), ('elif', t_elif), ('ifexp', t_ifexp), ('flip', t_flip), ('reorder', t_reorder), ('inline', t_inline), ('comp', t_comp), ('uncomp', t_uncomp), ('privrename', t_privrename)):
+        if (only and name not in only) or (not only and name == 'privrename'):
             continue
         overlay = {k: fn(v) for k, v in src.items()}
         for p in props:
